@@ -162,3 +162,180 @@ def narrowing(ctx, P, rule="NARROW"):
                 continue
             ctx.ob(rule, key, ok, where, "%s (%s): %s" % (var or origin, origin, why))
     return facade_needed
+
+
+# =============================================================================================
+from sa.expr import callname, macro_args, calls  # noqa: E402
+
+
+def _node_of(cfg, ast):
+    for n in cfg.nodes:
+        if n.ast is None or n.kind == "join":
+            continue
+        for x in walk(n.ast):
+            if x is ast:
+                return n
+    return None
+
+
+def array_flags(ctx, P, rule="ARRAY-FLAGS", floor=60):
+    """Every numpy conversion whose buffer is read as a dense C array requests a C-contiguous, aligned array."""
+    ctx.rule(rule, "every PyArray_FROMANY / PyArray_FromAny / PyArray_FROM_OTF conversion in the module (and the lwt header) "
+                   "passes NPY_ARRAY_IN_ARRAY (C-contiguous + aligned): PyArray_DATA of the result is read as a dense buffer")
+    tu = P.tus["module"]
+    n = 0
+    for fn in tu.funcs.values():
+        k = 0
+        for c in calls(fn.body):
+            nm = callname(c)
+            if nm not in ("PyArray_FROMANY", "PyArray_FromAny", "PyArray_FROM_OTF", "PyArray_FROM_OF", "PyArray_FROMANY_"):
+                continue
+            a = macro_args(tu.src(c))
+            flags = {"PyArray_FROMANY": 4, "PyArray_FromAny": 4, "PyArray_FROM_OTF": 2, "PyArray_FROM_OF": 1}.get(nm, 4)
+            ftxt = a[flags] if len(a) > flags else ""
+            ok = "NPY_ARRAY_IN_ARRAY" in ftxt or ("NPY_ARRAY_C_CONTIGUOUS" in ftxt and "NPY_ARRAY_ALIGNED" in ftxt) \
+                or "NPY_ARRAY_INOUT_ARRAY" in ftxt or "NPY_ARRAY_CARRAY" in ftxt
+            ctx.ob(rule, "%s@%d" % (fn.name, k), ok, tu.loc(c), "%s(..., %s)" % (nm, ftxt))
+            k += 1
+            n += 1
+    ctx.floor(rule, floor)
+    return n
+
+
+def setvbuf_before_load(ctx, P, rule="STREAM-UNBUFFERED"):
+    ctx.rule(rule, "in TreeSequence_load and TableCollection_load, setvbuf(file, NULL, _IONBF, 0) is executed (and its result "
+                   "tested) on every path to the *_loadf call, so a load consumes exactly one stored object from a stream")
+    tu = P.tus["module"]
+    for fname, loadf in (("TableCollection_load", "tsk_table_collection_loadf"), ("TreeSequence_load", "tsk_treeseq_loadf")):
+        fn = P.need(fname, "module")
+        cfg = CFG(fn)
+        lf = [c for c in calls(fn.body) if callee(c) == loadf]
+        ctx.need(len(lf) >= 1, "%s calls %s" % (fname, loadf))
+        sv = [c for c in calls(fn.body) if callee(c) == "setvbuf"]
+        ok = False
+        why = "no setvbuf call"
+        for s in sv:
+            a = [estr(x) for x in s.kids[1:]]
+            modeok = len(a) == 4 and "_IONBF" in tu.src(s) and a[1] in ("NULL", "0", "(void *)0") or (len(a) == 4 and "_IONBF" in tu.src(s))
+            sn = _node_of(cfg, s)
+            ln = _node_of(cfg, lf[0])
+            if sn is None or ln is None:
+                continue
+            if not modeok:
+                why = "setvbuf mode is not _IONBF"
+                continue
+            file_same = estr(s.kids[1]) == estr(lf[0].kids[2])
+            if not file_same:
+                why = "setvbuf applied to `%s` but %s reads `%s`" % (estr(s.kids[1]), loadf, estr(lf[0].kids[2]))
+                continue
+            if cfg.path_exists(cfg.entry, ln, avoid={sn}):
+                why = "a path reaches %s without passing setvbuf" % loadf
+                continue
+            ok, why = True, "setvbuf(_IONBF) dominates %s" % loadf
+        ctx.ob(rule, fname, ok, tu.loc(lf[0]), why)
+
+
+def bytes_length(ctx, P, rule="BYTES-LENGTH"):
+    ctx.rule(rule, "the module never derives the length of Python-supplied bytes with strlen()/PyBytes_AsString/PyUnicode_AsUTF8 "
+                   "(binary metadata may contain NUL); lengths come from PyBytes_AsStringAndSize / s# / PyUnicode_AsUTF8AndSize")
+    tu = P.tus["module"]
+    bad = 0
+    tot = 0
+    for fn in tu.funcs.values():
+        for c in calls(fn.body):
+            nm = callname(c)
+            if nm in ("PyBytes_AsStringAndSize", "PyUnicode_AsUTF8AndSize"):
+                tot += 1
+                ctx.ob(rule, "%s|%s@%d" % (fn.name, nm, tot), True, tu.loc(c), "length taken from the object")
+            if nm in ("strlen", "PyBytes_AsString", "PyBytes_AS_STRING", "PyUnicode_AsUTF8", "strnlen"):
+                if fn.name in STRLEN_OK:
+                    ctx.ob(rule, "%s|%s" % (fn.name, nm), True, tu.loc(c), "exception: " + STRLEN_OK[fn.name])
+                    continue
+                bad += 1
+                ctx.ob(rule, "%s|%s" % (fn.name, nm), False, tu.loc(c),
+                       "%s used on Python-supplied data: a length computed this way truncates at the first NUL byte" % nm)
+    # 's'/'z'/'y' formats without '#' hand out NUL-terminated pointers with no length
+    for fn in tu.funcs.values():
+        for pc in modinfo.parse_calls(tu, fn):
+            for u in pc.units:
+                if u in ("y", "z", "s") and fn.name not in CSTR_OK:
+                    # strings used as C strings (file modes, names) are fine only if never paired with a length
+                    tot += 1
+                    ctx.ob(rule, "%s|fmt:%s" % (fn.name, u), fn.name in CSTR_OK or u == "s", tu.loc(pc.call),
+                           "format unit '%s' yields a NUL-terminated pointer without a length" % u)
+    return tot
+
+
+STRLEN_OK = {"write_ragged_col": "assert() on an internal key name (lwt header), not Python data"}
+CSTR_OK = {}
+
+
+def parsed_used(ctx, P, rule="PARSED-USED"):
+    ctx.rule(rule, "every variable filled by PyArg_Parse* in a module function is read afterwards (a parsed-but-unused argument "
+                   "is an option the C layer silently ignores)")
+    tu = P.tus["module"]
+    n = 0
+    for fn in tu.funcs.values():
+        pcs = modinfo.parse_calls(tu, fn)
+        if not pcs:
+            continue
+        for pc in pcs:
+            slots, _ = modinfo.dest_slots(pc)
+            for i, (u, ds) in enumerate(slots):
+                for d in ds:
+                    v = modinfo.dest_var(d)
+                    if not v:
+                        continue
+                    if u in ("O!", "O&") and d is ds[0]:
+                        continue
+                    uses = 0
+                    for x in walk(fn.body):
+                        if x.k == "DeclRefExpr" and x.ref == v:
+                            uses += 1
+                    # one use is the &v in the parse call itself
+                    kw = pc.kwlist[i] if pc.kwlist and i < len(pc.kwlist) else None
+                    n += 1
+                    ok = uses >= 2 or (fn.name, v) in PARSED_UNUSED_OK
+                    ctx.ob(rule, "%s|%s" % (fn.name, v), ok, tu.loc(pc.call),
+                           "argument %s%s parsed into `%s` is %s" % (i, " (%s)" % kw if kw else "", v,
+                                                                   "used" if uses >= 2 else "never read afterwards"))
+    return n
+
+
+PARSED_UNUSED_OK = {}
+
+
+def owned_arrays(ctx, P, rule="ARRAY-READONLY"):
+    ctx.rule(rule, "arrays that alias library memory are created only in make_owned_array, which clears NPY_ARRAY_WRITEABLE and "
+                   "sets the owner as base on every path to its success return; no other function calls PyArray_SimpleNewFromData")
+    tu = P.tus["module"]
+    users = []
+    for fn in tu.funcs.values():
+        for c in calls(fn.body):
+            if callname(c) == "PyArray_SimpleNewFromData":
+                users.append((fn, c))
+    ctx.need(len(users) >= 1, "PyArray_SimpleNewFromData is used somewhere")
+    for fn, c in users:
+        src = tu.src(fn.body)
+        if "NPY_ARRAY_OWNDATA" in src:
+            ctx.ob(rule, "%s|owns" % fn.name, True, tu.loc(c), "wraps a private buffer and enables NPY_ARRAY_OWNDATA")
+            continue
+        cfg = CFG(fn)
+        clear = [x for x in calls(fn.body) if callname(x) == "PyArray_CLEARFLAGS" and "NPY_ARRAY_WRITEABLE" in tu.src(x)]
+        base = [x for x in calls(fn.body) if callname(x) == "PyArray_SetBaseObject"]
+        succ = [n for n in cfg.nodes if n.kind == "stmt" and n.ast is not None and is_assign(n.ast)
+                and estr(strip(n.ast.kids[0])) == "ret" and "array" in estr(n.ast.kids[1])]
+        ok1 = bool(clear) and bool(succ) and all(not cfg.path_exists(cfg.entry, s_, avoid={_node_of(cfg, clear[0])}) for s_ in succ)
+        ok2 = bool(base) and bool(succ) and all(not cfg.path_exists(cfg.entry, s_, avoid={_node_of(cfg, base[0])}) for s_ in succ)
+        ctx.ob(rule, "%s|CLEARFLAGS(WRITEABLE)" % fn.name, ok1, tu.loc(c), "WRITEABLE cleared on every path to the success return")
+        ctx.ob(rule, "%s|SetBaseObject" % fn.name, ok2, tu.loc(c), "owner set as base on every path to the success return")
+    fn = P.need("make_owned_array", "module")
+    # every getter that hands out tree-sequence / tree memory goes through the factory
+    n = 0
+    for f in tu.funcs.values():
+        for c in calls(f.body):
+            nm = callee(c)
+            if nm in ("make_owned_array", "TreeSequence_make_array", "Tree_make_array"):
+                n += 1
+    ctx.ob(rule, "factory-users", n >= 40, tu.loc(fn.node), "%d getters go through the read-only factory" % n)
+    return n
